@@ -151,7 +151,8 @@ def strat(tier):
   @st.composite
   def s(draw):
     kind = draw(st.sampled_from(['producer_raises', 'producer_raises', 'stop', 'stop', 'timeout']))
-    prods = draw(st.lists(st.integers(0, 4), min_size=1, max_size=3))
+    # up to 5 producers: a failure has to wake *all* the others, however many are parked on the full queue
+    prods = draw(st.one_of(st.lists(st.integers(0, 4), min_size=1, max_size=3), st.lists(st.integers(1, 3), min_size=4, max_size=5)))
     cons = draw(st.lists(st.builds(lambda m, n: {'mode': m, 'n': n}, st.sampled_from(['get', 'batch_nb', 'batch_b', 'get']), st.integers(1, 3)),
                          min_size=1, max_size=3))
     buffer = draw(st.sampled_from([0, 1, 1, 2, 3]))
